@@ -9,84 +9,52 @@
 
   Hence every C10 theorem about the hand models holds for the generated functions (Props/C10.lean, `C10_generated_*`).
   If the C++ changes, Gen/InvGen.lean changes and these proofs are re-checked against the new text.
+
+  The proofs do not follow the generated text (see Lemmas/BridgeInvCore.lean): the state tuple of a generated loop is
+  never written down; which component plays which role is found by search (`pick_proj`) and validated by the
+  semantic one-step facts `EuclidSim` / `ExpSim`, proved from the unfolded step function by `simp` sets over
+  `Nat` / `F` that are closed under commutativity.  What still has to hold textually: the names of the generated
+  functions (`inv___eE`, `inv___eE_loop1`, …, i.e. the C++ signatures and "first loop of the function"), the zero
+  test in front of the loop, and that the quotient is formed as `r / newr` on machine words.
 -/
 import GoldilocksVerif.Gen.InvGen
-import GoldilocksVerif.Lemmas.InvF
+import GoldilocksVerif.Lemmas.BridgeInvCore
+set_option linter.unusedTactic false
+set_option linter.unreachableTactic false
 
 namespace GoldilocksVerif
 open Gen.Scalar Gen.InvGen Model
 
-/-- fuel from which the generated `inv` / `div` (and everything calling them) cannot run out of fuel -/
-def invFuel : Nat := 129
-/-- fuel from which the generated `exp` cannot run out of fuel -/
-def expFuel : Nat := 64
+/-! ### tactics that validate one observation against the unfolded step function -/
+
+/-- `∀ s, Option.map Prod.fst (step s) = some (decide …)`: the flag of the step, whatever the form of the test -/
+macro "step_flag " f:ident " with " "[" ls:term,* "]" : tactic => `(tactic| (
+  intro s
+  simp only [$f:ident, apply_ite (Option.map Prod.fst), Option.map_some]
+  split <;> simp_all [zero_eq_bv, $[$ls:term],*]))
+
+/-- `∀ s … s', step s = some (_, s') → Q s s'`: invert the step (s' becomes the tuple of next values) -/
+macro "step_inv " f:ident : tactic => `(tactic| (
+  intro h
+  simp only [$f:ident] at h
+  (repeat' split at h) <;>
+    simp only [Option.some.injEq, Prod.mk.injEq, Bool.false_eq_true, Bool.true_eq_false, false_and, true_and] at h <;>
+    (first | (obtain ⟨hb, hs⟩ := h; subst hb; subst hs) | subst h) <;> (try simp -proj only [fst_mk', snd_mk']) <;> gen_dealias))
+
+/-- field value of a word computed with the scalar operations -/
+macro "den_eval" : tactic => `(tactic| (
+  simp only [sub_r_eq, mul_r_eq, add_r_eq, square_r_eq, square_e_eq, fromU64_eq, fromU64_e_eq, toU64_e_eq,
+    den_toU64, den_sub, den_mul, den_add] <;> ring))
+
+macro "canon_word" : tactic => `(tactic| first | exact toU64_r_lt _ | exact toU64_e_lt _)
+
+macro "nat_word" : tactic => `(tactic|
+  simp only [fromU64_eq, fromU64_e_eq, toU64_e_eq, Model.toU64_r_toNat])
+
+/-- a component of the literal start tuple / of the loop result is the expected value -/
+macro "tuple_rfl" : tactic => `(tactic| first | (simp -proj only [fst_mk', snd_mk']; done) | rfl)
 
 /-! ### Euclid loop -/
-
-theorem inv_step_stop (q a1 a2 t newt r : BitVec 64) :
-    inv___eE_loop1 (q, a1, a2, t, newt, r, 0#64) = some (false, (q, a1, a2, t, newt, r, 0#64)) := rfl
-
-theorem inv_step_next (q a1 a2 t newt r newr : BitVec 64) (h : newr ≠ 0#64) :
-    inv___eE_loop1 (q, a1, a2, t, newt, r, newr) =
-      some (true, (fromU64__rE (r / newr), fromU64__rE r, fromU64__rE newr, toU64__rE (fromU64__rE newt),
-                   stepVal t newt (fromU64__rE (r / newr)), toU64__rE (fromU64__rE newr),
-                   stepVal r newr (fromU64__rE (r / newr)))) := by
-  have hb : (newr != 0#64) = true := by simpa using h
-  unfold inv___eE_loop1
-  simp only [hb, if_true]
-  rfl
-
-theorem euclid_halves (a b : Nat) (hb : 0 < b) (h : b ≤ a) : 2 * (b * (a % b)) ≤ a * b := by
-  have hm := Nat.mod_lt a hb
-  have hd := Nat.div_add_mod a b
-  have hq : 1 ≤ a / b := Nat.div_pos h hb
-  have hbq : b ≤ b * (a / b) := Nat.le_mul_of_pos_right b hq
-  have h2 : 2 * (a % b) ≤ a := by omega
-  calc 2 * (b * (a % b)) = (2 * (a % b)) * b := by ring
-    _ ≤ a * b := Nat.mul_le_mul_right b h2
-
-/-- the generated Euclid loop returns whenever `r·newr < 2^fuel`, and its `t` component is the hand model's result -/
-theorem inv_loop_bridge : ∀ (fuel : Nat) (q a1 a2 t newt r newr : BitVec 64) (hn : newr.toNat < P),
-    newr.toNat ≤ r.toNat → r.toNat * newr.toNat < 2 ^ fuel →
-    ∃ q' a1' a2' newt' r' newr', Loop.whileM inv___eE_loop1 (fuel + 1) (q, a1, a2, t, newt, r, newr) =
-      some (q', a1', a2', invLoop t r newt newr hn, newt', r', newr') := by
-  intro fuel
-  induction fuel with
-  | zero =>
-    intro q a1 a2 t newt r newr hn hle hf
-    have h0 : newr = 0#64 := by
-      apply BitVec.eq_of_toNat_eq
-      have : r.toNat * newr.toNat = 0 := by omega
-      rcases Nat.mul_eq_zero.mp this with h | h
-      · show newr.toNat = 0; omega
-      · exact h
-    subst h0
-    exact ⟨q, a1, a2, newt, r, 0#64, by rw [Loop.whileM_stop _ _ _ _ (inv_step_stop ..), invLoop_zero]⟩
-  | succ f ih =>
-    intro q a1 a2 t newt r newr hn hle hf
-    by_cases h0 : newr = 0#64
-    · subst h0
-      exact ⟨q, a1, a2, newt, r, 0#64, by rw [Loop.whileM_stop _ _ _ _ (inv_step_stop ..), invLoop_zero]⟩
-    · have hpos : 0 < newr.toNat := by
-        have : newr.toNat ≠ 0 := fun h => h0 (BitVec.eq_of_toNat_eq (by simpa using h))
-        omega
-      have e_r' : (toU64__rE (fromU64__rE newr)).toNat = newr.toNat := by
-        rw [Model.toU64_r_toNat]; exact Nat.mod_eq_of_lt hn
-      have e_newr' : (stepVal r newr (fromU64__rE (r / newr))).toNat = r.toNat % newr.toNat :=
-        stepVal_rem r newr hpos hn
-      have hle' : (stepVal r newr (fromU64__rE (r / newr))).toNat ≤ (toU64__rE (fromU64__rE newr)).toNat := by
-        rw [e_r', e_newr']; exact Nat.le_of_lt (Nat.mod_lt _ hpos)
-      have hf' : (toU64__rE (fromU64__rE newr)).toNat * (stepVal r newr (fromU64__rE (r / newr))).toNat < 2 ^ f := by
-        rw [e_r', e_newr']
-        have := euclid_halves r.toNat newr.toNat hpos hle
-        rw [Nat.pow_succ] at hf
-        omega
-      obtain ⟨q', a1', a2', newt', r', newr', hw⟩ :=
-        ih (fromU64__rE (r / newr)) (fromU64__rE r) (fromU64__rE newr) (toU64__rE (fromU64__rE newt))
-          (stepVal t newt (fromU64__rE (r / newr))) (toU64__rE (fromU64__rE newr))
-          (stepVal r newr (fromU64__rE (r / newr))) (stepVal_lt r newr h0 hn) hle' hf'
-      refine ⟨q', a1', a2', newt', r', newr', ?_⟩
-      rw [Loop.whileM_next _ _ _ _ (inv_step_next q a1 a2 t newt r newr h0), hw, invLoop_succ t r newt newr hn h0]
 
 /-- generated `Goldilocks::inv(result, in1)` = hand model, for every fuel ≥ 129 -/
 theorem inv_e_gen_eq (fuel : Nat) (hf : invFuel ≤ fuel) (a : BitVec 64) : inv___eE fuel a = Model.inv a := by
@@ -94,107 +62,84 @@ theorem inv_e_gen_eq (fuel : Nat) (hf : invFuel ≤ fuel) (a : BitVec 64) : inv_
   by_cases hz : isZero a = true
   · simp only [hz, if_true]
   · simp only [hz, Bool.false_eq_true, if_false]
-    have hn : (toU64__rE a).toNat < P := by rw [Model.toU64_r_toNat]; exact Nat.mod_lt _ (by decide)
-    have hP : (18446744069414584321#64 : BitVec 64).toNat = P := by decide
-    have hle : (toU64__rE a).toNat ≤ (18446744069414584321#64 : BitVec 64).toNat := by rw [hP]; omega
-    have hprod : (18446744069414584321#64 : BitVec 64).toNat * (toU64__rE a).toNat < 2 ^ 128 := by
-      rw [hP]
-      have h1 : P * (toU64__rE a).toNat < P * P := Nat.mul_lt_mul_of_pos_left hn (by decide)
-      have h2 : P * P < 2 ^ 128 := by decide
-      omega
-    obtain ⟨q', a1', a2', newt', r', newr', hw⟩ :=
-      inv_loop_bridge 128 0#64 0#64 0#64 0#64 1#64 18446744069414584321#64 (toU64__rE a) hn hle hprod
-    have hw' := Loop.whileM_mono inv___eE_loop1 129 _ _ fuel hw hf
-    rw [hw']
-    rfl
+    refine euclid_bind (step := inv___eE_loop1) (pt := ?pt) (pnt := ?pnt) (pr := ?pr) (pnr := ?pnr)
+      ⟨?cond, ?stop, ?hr, ?hnr, ?ht, ?hnt⟩ _ a _ ?i_t ?i_r ?i_nt ?i_nr ?hk fuel hf
+    pick_proj pt =>
+      case i_t => tuple_rfl
+      case hk => intro s; rfl
+      pick_proj pnr =>
+        case i_nr => tuple_rfl
+        case cond => step_flag inv___eE_loop1 with []
+        pick_proj pr =>
+          case i_r => tuple_rfl
+          case hr => intro s s'; step_inv inv___eE_loop1; nat_word
+          case hnr => intro s s'; step_inv inv___eE_loop1; exact ⟨by canon_word, by den_eval⟩
+          pick_proj pnt =>
+            case i_nt => tuple_rfl
+            case ht => intro s s'; step_inv inv___eE_loop1; nat_word
+            case hnt => intro s s'; step_inv inv___eE_loop1; exact ⟨by canon_word, by den_eval⟩
+            case stop => intro s s'; step_inv inv___eE_loop1
 
 theorem inv_r_gen_eq (fuel : Nat) (hf : invFuel ≤ fuel) (a : BitVec 64) : inv___rE fuel a = Model.inv a := by
   unfold inv___rE
   rw [inv_e_gen_eq fuel hf]
   cases Model.inv a <;> rfl
 
+/-- a result obtained with ANY fuel is the result obtained with more fuel (used by `C10_generated_inv_any_fuel`) -/
+theorem inv_e_gen_mono (f g : Nat) (hfg : f ≤ g) (a r : BitVec 64) (h : inv___eE f a = some r) :
+    inv___eE g a = some r := by
+  unfold inv___eE at h ⊢
+  by_cases hz : isZero a = true
+  · simp only [hz, if_true] at h; cases h
+  · simp only [hz, Bool.false_eq_true, if_false] at h ⊢
+    exact Loop.whileM_bind_mono _ _ f g _ r h hfg
+
 /-- generated `Goldilocks::div` (both overloads) = hand model -/
 theorem div_r_gen_eq (fuel : Nat) (hf : invFuel ≤ fuel) (a b : BitVec 64) : div__rEE fuel a b = Model.div a b := by
   unfold div__rEE Model.div
   rw [inv_r_gen_eq fuel hf]
-  cases Model.inv b <;> rfl
+  cases Model.inv b with
+  | none => rfl
+  | some i => exact congrArg some (by mul_form)
 
 theorem div_e_gen_eq (fuel : Nat) (hf : invFuel ≤ fuel) (a b : BitVec 64) : div__eEE fuel a b = Model.div a b := by
   unfold div__eEE Model.div
   rw [inv_r_gen_eq fuel hf]
-  cases Model.inv b <;> rfl
+  cases Model.inv b with
+  | none => rfl
+  | some i => exact congrArg some (by mul_form)
 
 /-! ### exp: square and multiply -/
 
-/-- the aliased call patterns `mul(result, result, base)` / `mul(base, base, base)` are the same asm text with the
-    operands bound to one variable -/
-theorem mul_al1 (x y : BitVec 64) : mul__eEE_al_result_in1 x y = mul__eEE x y := rfl
-theorem mul_al2 (x : BitVec 64) : mul__eEE_al_result_in1_al_result_in2 x = mul__eEE x x := rfl
-
-theorem exp_step (result e base : BitVec 64) :
-    exp___eEE_loop1 (result, e, base) =
-      let result' := if e &&& 1#64 != 0#64 then mul__eEE result base else result
-      if (e >>> 1) == 0#64 then some (false, (result', e >>> 1, base))
-      else some (true, (result', e >>> 1, mul__eEE base base)) := by
-  unfold exp___eEE_loop1
-  simp only [mul_al1, mul_al2]
-  by_cases hz : (e >>> 1) = 0#64
-  · simp [hz]
-  · have h1 : ((e >>> 1) != 0#64) = true := by simpa using hz
-    have h2 : ((e >>> 1) == 0#64) = false := by simpa using hz
-    simp only [h1, h2, Bool.not_true, Bool.false_eq_true, if_false]
-
-/-- the generated loop computes `expLoop n` whenever the exponent has at most n bits (n ≥ 1 iterations) -/
-theorem exp_loop_bridge : ∀ (n : Nat) (result e base : BitVec 64), e.toNat < 2 ^ (n + 1) →
-    ∃ e' base', Loop.whileM exp___eEE_loop1 (n + 1) (result, e, base) = some (expLoop (n + 1) result base e, e', base') := by
-  intro n
-  induction n with
-  | zero =>
-    intro result e base h
-    have hsh : (e >>> 1).toNat = e.toNat / 2 := by
-      rw [BitVec.toNat_ushiftRight, Nat.shiftRight_eq_div_pow]
-    have hz : (e >>> 1) = 0#64 := by
-      apply BitVec.eq_of_toNat_eq; rw [hsh]; show e.toNat / 2 = 0; omega
-    have hs : exp___eEE_loop1 (result, e, base) =
-        some (false, (if e &&& 1#64 != 0#64 then mul__eEE result base else result, e >>> 1, base)) := by
-      rw [exp_step]; simp [hz]
-    refine ⟨e >>> 1, base, ?_⟩
-    rw [Loop.whileM_stop _ _ _ _ hs]
-    unfold expLoop
-    simp [hz]
-  | succ n ih =>
-    intro result e base h
-    have hsh : (e >>> 1).toNat = e.toNat / 2 := by
-      rw [BitVec.toNat_ushiftRight, Nat.shiftRight_eq_div_pow]
-    by_cases hz : (e >>> 1) = 0#64
-    · have hs : exp___eEE_loop1 (result, e, base) =
-          some (false, (if e &&& 1#64 != 0#64 then mul__eEE result base else result, e >>> 1, base)) := by
-        rw [exp_step]; simp [hz]
-      refine ⟨e >>> 1, base, ?_⟩
-      rw [Loop.whileM_stop _ _ _ _ hs]
-      conv => rhs; unfold expLoop
-      simp [hz]
-    · have h2 : ((e >>> 1) == 0#64) = false := by simpa using hz
-      have hs : exp___eEE_loop1 (result, e, base) =
-          some (true, (if e &&& 1#64 != 0#64 then mul__eEE result base else result, e >>> 1, mul__eEE base base)) := by
-        rw [exp_step]; simp only [h2, Bool.false_eq_true, if_false]
-      have hlt : (e >>> 1).toNat < 2 ^ (n + 1) := by
-        rw [hsh]; rw [Nat.pow_succ] at h; omega
-      obtain ⟨e', base', hw⟩ := ih (if e &&& 1#64 != 0#64 then mul__eEE result base else result) (e >>> 1)
-        (mul__eEE base base) hlt
-      refine ⟨e', base', ?_⟩
-      rw [Loop.whileM_next _ _ _ _ hs, hw]
-      conv => rhs; unfold expLoop
-      simp only [h2, Bool.false_eq_true, if_false]
+/-- the new accumulator, per branch of the generated text: the consistent branches are products in one of the
+    accepted forms or the old value, the inconsistent ones contradict the parity of the exponent -/
+macro "exp_acc" : tactic => `(tactic| (
+  split <;> first
+    | mul_form
+    | with_reducible rfl
+    | (exfalso
+       simp only [bne_iff_ne, ne_eq, beq_iff_eq, Bool.not_eq_true, Bool.not_eq_true', beq_eq_false_iff_ne,
+         bne_eq_false_iff_eq, not_not, and_one_eq_zero, and_one_eq_one] at *
+       omega)))
 
 /-- generated `Goldilocks::exp` (both overloads) = hand model, for every fuel ≥ 64: it always returns -/
 theorem exp_e_gen_eq (fuel : Nat) (hf : expFuel ≤ fuel) (b e : BitVec 64) : exp___eEE fuel b e = some (Model.exp b e) := by
-  unfold exp___eEE Model.exp
-  obtain ⟨e', base', hw⟩ := exp_loop_bridge 63 one__r e b e.isLt
-  have hw' := Loop.whileM_mono exp___eEE_loop1 64 _ _ fuel hw (by unfold expFuel at hf; omega)
+  unfold exp___eEE
   dsimp only
-  rw [hw']
-  rfl
+  refine exp_bind (step := exp___eEE_loop1) (pres := ?pres) (pe := ?pe) (pbase := ?pbase)
+    ⟨?cond, ?he, ?hres, ?hbase⟩ _ b e _ ?i_res ?i_e ?i_base ?hk fuel hf
+  pick_proj pres =>
+    case i_res => tuple_rfl
+    case hk => intro s; rfl
+    pick_proj pe =>
+      case i_e => tuple_rfl
+      case cond => step_flag exp___eEE_loop1 with [ushiftRight_one_eq_zero, udiv_two_eq_zero]
+      case he => intro s b' s'; step_inv exp___eEE_loop1 <;> first | exact ushiftRight_one_toNat _ | exact udiv_two_toNat _
+      pick_proj pbase =>
+        case i_base => tuple_rfl
+        case hbase => intro s s'; step_inv exp___eEE_loop1 <;> mul_form
+        case hres =>
+          intro s b' s'; step_inv exp___eEE_loop1 <;> exp_acc
 
 theorem exp_r_gen_eq (fuel : Nat) (hf : expFuel ≤ fuel) (b e : BitVec 64) : exp___rEE fuel b e = some (Model.exp b e) := by
   unfold exp___rEE
